@@ -265,11 +265,11 @@ func registerDisp(prop, rule string) {
 }
 
 func init() {
-	registerDisp("C10", "histories: every sequence to depth 5 (quick) / 6 (thorough) over {CreateScope(provider|scope), resolutions of scoped / transient / second output of a two-output constructor / disposables registered under interface types without Close (alias, interface-typed return) / singleton, Close(scope|provider), cancel} on <=3 scopes of an all-disposable container (with and without scope initializers), completed by closing the provider; multi-output constructors (result object / multiple returns; scoped, transient, singleton) whose second output is nil on the first invocation, so that a later request re-runs the constructor and re-creates the first output; fault positions: every constructor x invocation 1..2(3) x {returns error, panics, returns an error that wraps the disposed sentinel of some other scope} during Build, scope creation and resolution, over every history to depth 3/4; schedules: Resolve||Close(scope), Resolve||cancel, Resolve||Close(provider), CreateScope-with-initializers||Close, all schedules with <=2/3 preemptions. two providers built from one collection: every history to depth 4 (5) over {use p1, use p2, close p1, close p2} - closing one provider closes exactly what it owns, once. Oracle at the end of every execution: every container-created disposable closed exactly once, not before a Close/cancel of its owner, an ancestor or the provider started (or the creation that made it failed); non-disposables untouched. An outcome is the canonical observation string of one execution.")
-	registerDisp("C11", "same histories as C10 without faults; oracle on the global stamp sequence: within one owner (each scope; the singleton set) close order is exactly reverse creation order; every close in a descendant scope precedes every own-instance close of its ancestor; every scope-owned close (root scope included) precedes every singleton close; no disposable is closed while a still-open established disposable that received it exists; the C12 fault sequences (every subset of failing Close methods on provider > s1 > {s2, s3}) under the same order oracle. The property quantifies over configurations and histories; beyond it, the last clause (the stated consequence) is also checked on every schedule (bound 2/3) of the C10 overlap scenarios Resolve||Close(scope|provider), Resolve||cancel, CreateScope-with-initializers||Close, where 'established' means that the operation which constructed the instance completed successfully, or a completed operation handed it out - late arrivals the container refuses and disposes itself are not ordered.")
+	registerDisp("C10", "histories: every sequence to depth 5 (quick) / 6 (thorough) over {CreateScope(provider|scope), resolutions of scoped / transient / second output of a two-output constructor / disposables registered under interface types without Close (alias, interface-typed return) / singleton, Close(scope|provider), cancel} on <=3 scopes of an all-disposable container (with and without scope initializers), completed by closing the provider; multi-output constructors (result object / multiple returns; scoped, transient, singleton) whose second output is nil on the first invocation, so that a later request re-runs the constructor and re-creates the first output; fault positions: every constructor x invocation 1..2(3) x {returns error, panics, returns an error that wraps the disposed sentinel of some other scope, cancels the context of BuildWithContext (also on dependency chains whose last node is a singleton)} during Build, scope creation and resolution, over every history to depth 3/4; schedules: Resolve||Close(scope), Resolve||cancel, Resolve||Close(provider), CreateScope-with-initializers||Close, all schedules with <=2/3 preemptions. two providers built from one collection: every history to depth 4 (5) over {use p1, use p2, close p1, close p2} - closing one provider closes exactly what it owns, once. Oracle at the end of every execution: every container-created disposable closed exactly once, not before a Close/cancel of its owner, an ancestor or the provider started (or the creation that made it failed); non-disposables untouched. An outcome is the canonical observation string of one execution.")
+	registerDisp("C11", "same histories as C10 without faults; oracle on the global stamp sequence: within one owner (each scope; the singleton set) close order is exactly reverse creation order; every close in a descendant scope precedes every own-instance close of its ancestor; every scope-owned close (root scope included) precedes every singleton close; no disposable is closed while a still-open established disposable that received it exists; the C12 fault sequences (every subset of failing Close methods on provider > s1 > {s2, s3}) under the same order oracle; failing initializers (error / panic, invocation 1-3): the half-built scope is torn down in reverse creation order. The property quantifies over configurations and histories; beyond it, the last clause (the stated consequence) is also checked on every schedule (bound 2/3) of the C10 overlap scenarios Resolve||Close(scope|provider), Resolve||cancel, CreateScope-with-initializers||Close, where 'established' means that the operation which constructed the instance completed successfully, or a completed operation handed it out - late arrivals the container refuses and disposes itself are not ordered.")
 	mc.Register(&mc.Check{
 		Prop: "C12", MinOutcomes: 10,
-		Rule:   "fault sequences: a tree of 4 scopes (provider > s1 > {s2, s3}) owning up to 8 disposables (2 singletons, an aliased singleton, an interface-typed scoped service that is plain in one scope and disposable in the next, scoped + transient per scope; every subset of the 6 resolutions performed, so that scopes owning nothing occur): every subset (all 256 when everything is resolved, all subsets for <=4 scope-owned instances, singles and pairs otherwise) of the Close methods failing x every node closed first, then the same node again, then the provider twice; schedules: 2 and 3 concurrent Close on one scope, Close || cancel, Close(child) || Close(parent) || Close(provider), bound 2/3, with failing instances. Plus an owned instance whose own Close method closes its scope (or, from a child scope, the parent) again, through Close(scope|parent|provider) and cancel. Oracle: every owned instance attempted exactly once; the first Close returns a DisposalError iff a failing instance is in its subtree, every injected error is reachable from exactly one returned error (none for closes done by the cancellation watcher), repeated / losing Closes return nil.",
+		Rule:   "fault sequences: a tree of 4 scopes (provider > s1 > {s2, s3}) owning up to 8 disposables (2 singletons, an aliased singleton, an interface-typed scoped service that is plain in one scope and disposable in the next, scoped + transient per scope; every subset of the 6 resolutions performed, so that scopes owning nothing occur): every subset (all 256 when everything is resolved, all subsets for <=4 scope-owned instances, singles and pairs otherwise) of the Close methods failing x every node closed first, then the same node again, then the provider twice; schedules: 2 and 3 concurrent Close on one scope, Close || cancel, Close(child) || Close(parent) || Close(provider), bound 2/3, with failing instances. Plus scope churn under one parent (children created / closed in every order, all / none / alternate instances failing) judged on stamps: when the first Close of a node returns everything its subtree owned has been attempted and the verdict matches the failures in that window. Plus an owned instance whose own Close method closes its scope (or, from a child scope, the parent) again, through Close(scope|parent|provider) and cancel. Oracle: every owned instance attempted exactly once; the first Close returns a DisposalError iff a failing instance is in its subtree, every injected error is reachable from exactly one returned error (none for closes done by the cancellation watcher), repeated / losing Closes return nil.",
 		Assume: []string{"DisposalError.Errors is descended recursively together with errors.Unwrap"},
 		Jobs:   c12Jobs,
 	})
